@@ -545,18 +545,20 @@ func runRuns(a *acc, src []int, same func(a, b int) bool, param string, slc func
 					kind, what = "overpull", fmt.Sprintf("after outer Next %d the source had been asked %d times; only the first item of the run (item %d) is needed", r+1, p, pos)
 					return
 				}
-				if len(old) > 0 {
-					// the previous (drained) inner must keep reporting the end
-					where = fmt.Sprintf("Next on drained run %d after outer Next %d", r, r+1)
+				// the last few drained inner iterators must keep reporting the end now that the outer
+				// has moved on (and must not take items of the current run)
+				for back := 1; back <= 3 && back <= len(old); back++ {
+					which := len(old) - back + 1 // 1-based run number
+					where = fmt.Sprintf("Next on drained run %d after outer Next %d", which, r+1)
 					before := pulls()
-					x, ok := old[len(old)-1]()
+					x, ok := old[len(old)-back]()
 					a.endRe++
 					if ok {
-						kind, what = "end-unstuck", fmt.Sprintf("run %d had reported its end; after the outer advanced its Next returned %d", r, x)
+						kind, what = "end-unstuck", fmt.Sprintf("run %d had reported its end; after outer Next %d its Next returned %d", which, r+1, x)
 						return
 					}
 					if p := pulls(); p > before && p > pos+1 {
-						kind, what = "overpull", fmt.Sprintf("Next on the drained run %d pulled the source (%d -> %d)", r, before, p)
+						kind, what = "overpull", fmt.Sprintf("Next on the drained run %d pulled the source (%d -> %d)", which, before, p)
 						return
 					}
 				}
